@@ -389,10 +389,10 @@ fn child1<'a>(t: &'a Node<'a, RDev>) -> &'a Node<'a, RDev> {
     }
 }
 
-exec_harness!(tree1_root_h3, TREE1, T1, 3, 4, 10, root, 0);
-exec_harness!(tree1_root_h5, TREE1, T1, 5, 4, 10, root, 0);
-exec_harness!(tree1_branch_h3, TREE1, T1, 3, 4, 10, child2, 3);
-exec_harness!(tree2_root_h3, TREE2, T2, 3, 5, 10, root, 0);
-exec_harness!(tree2_root_h5, TREE2, T2, 5, 5, 10, root, 0);
-exec_harness!(tree2_init_h3, TREE2, T2, 3, 5, 10, child0, 1);
-exec_harness!(tree2_meas_h3, TREE2, T2, 3, 5, 10, child1, 6);
+exec_harness!(tree1_root_h3, TREE1, T1, 3, 4, 12, root, 0);
+exec_harness!(tree1_root_h5, TREE1, T1, 5, 4, 12, root, 0);
+exec_harness!(tree1_branch_h3, TREE1, T1, 3, 4, 12, child2, 3);
+exec_harness!(tree2_root_h3, TREE2, T2, 3, 5, 12, root, 0);
+exec_harness!(tree2_root_h5, TREE2, T2, 5, 5, 12, root, 0);
+exec_harness!(tree2_init_h3, TREE2, T2, 3, 5, 12, child0, 1);
+exec_harness!(tree2_meas_h3, TREE2, T2, 3, 5, 12, child1, 6);
